@@ -16,25 +16,28 @@ func init() { Registry["C17"] = C17; Registry["C18"] = C18 }
 // callsWithArg lists call instructions of fn one of whose operands evaluates to term want.
 func (env *Env) callsWithArg(e *flow.Engine, fn *ssa.Function, want *flow.Term) []ssa.CallInstruction {
 	var out []ssa.CallInstruction
-	ctx := e.Root(fn)
-	for _, b := range fn.Blocks {
-		for _, in := range b.Instrs {
-			c, ok := in.(ssa.CallInstruction)
-			if !ok {
-				continue
-			}
-			vals := append([]ssa.Value{}, c.Common().Args...)
-			if c.Common().IsInvoke() {
-				vals = append(vals, c.Common().Value)
-			}
-			for _, a := range vals {
-				if flow.Eq(flow.StripConv(e.Eval(a, ctx)), want) {
-					out = append(out, c)
-					break
-				}
+	seen := map[ssa.CallInstruction]bool{}
+	// every call on the inlined call tree below fn (helpers are seen through)
+	e.Walk(fn, false, func(in ssa.Instruction, fr flow.Frame) {
+		c, ok := in.(ssa.CallInstruction)
+		if !ok || seen[c] {
+			return
+		}
+		if cal := c.Common().StaticCallee(); cal != nil && env.P.InRepo(cal) && cal.Blocks != nil && !e.Atoms[cal] {
+			return // a repository helper that is walked into: its own calls count
+		}
+		vals := append([]ssa.Value{}, c.Common().Args...)
+		if c.Common().IsInvoke() {
+			vals = append(vals, c.Common().Value)
+		}
+		for _, a := range vals {
+			if flow.Eq(flow.StripConv(e.Eval(a, fr.Ctx)), want) {
+				out = append(out, c)
+				seen[c] = true
+				break
 			}
 		}
-	}
+	})
 	return out
 }
 
@@ -51,9 +54,9 @@ func C17(env *Env) {
 		client, idx, dig := param(fn, 0), param(fn, 1), param(fn, 2)
 		alts := e.EntryPaths(fn, flow.ModeErr)
 		env.requireGates(e, alts, "", []gateSpec{
-			{rule: "ARGS", name: "index>=0", m: pat.Bin("<=", pat.Const("0"), pat.Is(idx)), expect: "rtmrIndex >= 0 (tested on the int itself)"},
-			{rule: "ARGS", name: "index<=3", m: pat.Bin("<=", pat.Is(idx), pat.Const("3")), expect: "rtmrIndex <= 3 (tested on the int itself)"},
-			{rule: "ARGS", name: "digest-size", m: pat.Bin("==", pat.Len(pat.Is(dig)), pat.Call("(crypto.Hash).Size", pat.Const(sha384))), expect: "len(digest) == crypto.SHA384.Size()"},
+			{rule: "ARGS", name: "index>=0", m: pat.IntGe(pat.Is(idx), 0), expect: "rtmrIndex >= 0 (tested on the int itself)"},
+			{rule: "ARGS", name: "index<=3", m: pat.IntLe(pat.Is(idx), 3), expect: "rtmrIndex <= 3 (tested on the int itself)"},
+			{rule: "ARGS", name: "digest-size", m: pat.Bin("==", pat.Len(pat.Is(dig)), pat.OneOf(pat.Call("(crypto.Hash).Size", pat.Const(sha384)), pat.Const("48"))), expect: "len(digest) == crypto.SHA384.Size()"},
 		})
 		for _, a := range alts {
 			last := a.Results[len(a.Results)-1]
@@ -83,14 +86,18 @@ func C17(env *Env) {
 		alts := e2.EntryPaths(fn, flow.ModeErr)
 		env.requireGates(e2, alts, "", []gateSpec{
 			{rule: "ARGS", name: "hash-algo", m: pat.Bin("==", pat.Is(algo), pat.Const(sha384)), expect: "hashAlgo == crypto.SHA384"},
-			{rule: "ARGS", name: "log-nonempty", m: pat.Bin("!=", pat.Len(pat.Is(log)), pat.Const("0")), expect: "len(eventLog) != 0"},
+			{rule: "ARGS", name: "log-nonempty", m: pat.NonEmpty(pat.Is(log)), expect: "len(eventLog) != 0"},
 		})
 		var hobj *flow.Term
 		for _, a := range alts {
 			last := a.Results[len(a.Results)-1]
 			h := pat.Cap("h", pat.Call("(crypto.Hash).New", pat.Is(algo)))
 			b := pat.Bind{}
-			if pat.Call("rtmr.ExtendDigestClient", pat.Is(client), pat.Is(idx), pat.Invoke("Sum", h, pat.Const("nil")))(last, b) {
+			direct := pat.Slice(pat.Call("crypto/sha512.Sum384", pat.Is(log)), "", "")
+			if pat.Call("rtmr.ExtendDigestClient", pat.Is(client), pat.Is(idx), direct)(last, pat.Bind{}) {
+				r.OK("C17/EXTEND", "eventlog-delegate", env.P.Pos(a.Ret.Pos()), "returns ExtendDigestClient(client, rtmrIndex, sha512.Sum384(eventLog)[:]) behind the SHA-384 gate")
+				r.OK("C17/EXTEND", "eventlog-hash-input", env.P.Pos(a.Ret.Pos()), "one-shot SHA-384 of exactly the event log")
+			} else if pat.Call("rtmr.ExtendDigestClient", pat.Is(client), pat.Is(idx), pat.Invoke("Sum", h, pat.Const("nil")))(last, b) {
 				hobj = b["h"]
 				r.OK("C17/EXTEND", "eventlog-delegate", env.P.Pos(a.Ret.Pos()), "returns ExtendDigestClient(client, rtmrIndex, hashAlgo.New()...Sum(nil))")
 			} else {
